@@ -5,6 +5,7 @@ import SV.TxCache.OrderProofs
 import SV.TxCache.SelOrderProofs
 import SV.TxCache.GreedySpec
 import SV.TxCache.HeapModel
+import SV.TxCache.ReachableProofs
 namespace SV.Props.C03
 open SV SV.TxCache
 
@@ -59,5 +60,16 @@ theorem repeatable (v : Variant) (p : Pool) (s : Session) (q : SelParams) : sele
 
 /-- F2 (pre-repair): PPU from the low 64 bits of the fee -/
 theorem legacy_ppu_truncates : (⟨[1], [2], 0, 1, 1, 1, two64 + 5, 0, []⟩ : Tx).ppu Variant.legacy = 5 := by decide
+
+/-- END-TO-END: on every reachable pool the selection IS the documented greedy procedure and depends only on the SET of
+    sender lists (any other map iteration / insertion order of the senders gives the same result) -/
+theorem greedy_on_every_reachable_pool (U : Bytes → Tx) (cfg : Config) (ops : List Op)
+    (hw : ∀ t, Op.add t ∈ ops → WfTx U t) (s : Session) (q : SelParams) :
+    let p := ops.foldl applyOp (Pool.init cfg)
+    select Variant.current p s q = greedy Variant.current s q (p.lists.map (·.2)) ∧
+    (∀ L' : List (Bytes × List Tx), L'.Perm p.lists →
+      selectFromBunches Variant.current s q (L'.map (·.2)) = select Variant.current p s q) ∧
+    (∀ p' : Pool, p'.lists.Perm p.lists → select Variant.current p' s q = select Variant.current p s q) :=
+  reachable_selection_is_greedy U cfg ops hw s q
 
 end SV.Props.C03
